@@ -1,17 +1,16 @@
 SPECIFICATION Spec
-CONSTANTS Principals = {"A", "A2", "B"}
+CONSTANTS Principals = {"A"}
           Accounts = {"alice", "carol"}
           PNames = {"P"}
           Codes = {"c1"}
           BadCodes = {}
           BoomCodes = {}
-          Strategies = {}
-          MaxReq = 8
+          Strategies = {"S"}
+          MaxReq = 6
           TempNames = {}
           GenPNames = {}
           FilterOnOwner = TRUE
           FixedF8 = TRUE
-          Person <- DevPerson
-CONSTRAINT DevBound
-INVARIANTS NoUnexplainedRead NoUnexplainedEffect NoUnexplainedResult NoUnexplainedLoss ResultsMatchCode EndedNotRunning
+          Person <- IdPerson
+INVARIANTS NoLostResult
 CHECK_DEADLOCK FALSE
